@@ -131,6 +131,16 @@ def call(I, ctx, fr, fv, args, kwargs, node, star):
     if isinstance(fv, VMethod):
         return call_method(I, ctx, fr, fv.selfv, fv.name, args, kwargs, node, star)
     if isinstance(fv, VBuiltin):
+        if star is not None:
+            if fv.name != 'dict':
+                raise Unsupported('builtin %s called with a symbolic ** mapping' % fv.name, node)
+            # dict(a, k=v, **m): copy, then the keyword mapping on top (explicit keywords and **m
+            # cannot collide without a TypeError; the sets are kept disjoint by the caller)
+            d = _b_dict(I, ctx, fr, args, {}, node)
+            dict_method(I, ctx, fr, d, I.hobj(ctx, d), 'update', [star], {}, node)
+            for k, x in kwargs.items():
+                M.dict_set(I, ctx, d, VStr(k), x, node)
+            return d
         f = BUILTIN_FUNCS.get(fv.name)
         if f is None:
             m = I.engine.externals.get('builtins.' + fv.name)
@@ -163,6 +173,8 @@ def instantiate(I, ctx, fr, cv, args, kwargs, node, star=None):
         short = name[len('builtins.'):]
         f = BUILTIN_FUNCS.get(short)
         if f is not None:
+            if star is not None:
+                return call(I, ctx, fr, VBuiltin(short), args, kwargs, node, star)
             return f(I, ctx, fr, args, kwargs, node)
         if I.classes.has(name) and I.classes.static_sub(name, 'builtins.BaseException'):
             return I.make_exc(ctx, name, args)
